@@ -60,11 +60,17 @@ def findlabels(code, opc):
         if arg is not None:
             arg2 = arg * 2 if opc.version_tuple >= (3, 10) else arg
             if op in opc.JREL_OPS:
-                if opc.version_tuple >= (3, 11) and opc.opname[op] in ("JUMP_BACKWARD", "JUMP_BACKWARD_NO_INTERRUPT"):
-                    arg = -arg
+                opname = opc.opname[op]
+                # 3.11+ backward jumps: JUMP_BACKWARD, JUMP_BACKWARD_NO_INTERRUPT
+                # and 3.11's POP_JUMP_BACKWARD_IF_xxx
+                if opc.version_tuple >= (3, 11) and "JUMP_BACKWARD" in opname:
+                    arg2 = -arg2
                 jump_offset = offset + 2 + arg2
-                if opc.version_tuple >= (3,13):
-                    jump_offset += 2 * _get_cache_size_313(opc.opname[op])
+                # Since 3.12 a jump is relative to the end of its inline cache entries
+                if opc.version_tuple >= (3, 13):
+                    jump_offset += 2 * _get_cache_size_313(opname)
+                elif opc.version_tuple >= (3, 12) and opname in ("FOR_ITER", "SEND"):
+                    jump_offset += 2
             elif op in opc.JABS_OPS:
                 jump_offset = arg2
             else:
